@@ -184,8 +184,10 @@ constexpr auto script_static_vector(u64 seed) -> Dig
     Dig d{};
     Rng r{seed};
     using vec = etl::static_vector<T, Cap>;
-    vec v{};
-    vec w{};
+    // default-initialised (as user code writes it): slots that were never constructed are uninitialised storage, so a
+    // read of such a slot is rejected by the constant evaluator (and is garbage at run time)
+    vec v;
+    vec w;
     int const steps = 24;
     for (int k = 0; k < steps; ++k) {
         auto const sz = static_cast<int>(v.size());
@@ -453,7 +455,8 @@ constexpr auto script_inplace_string(u64 seed) -> Dig
             if (n <= room) { s += buf; }
             break;
         case 2:
-            if (room >= 1) { s.push_back(buf[0] == 0 ? 'q' : buf[0]); }
+            // (an empty text gives a NUL character inside the string)
+            if (room >= 1) { s.push_back(buf[0]); }
             break;
         case 3:
             if (sz > 0) { s.pop_back(); }
@@ -519,6 +522,12 @@ constexpr auto script_inplace_string(u64 seed) -> Dig
         }
         case 13: {
             str t{buf};
+            if (r.coin() && sz > 0) {
+                // a copy that differs in one position only (possibly behind an embedded NUL)
+                t = s;
+                auto const at = static_cast<etl::size_t>(r.below(sz));
+                t[at]         = static_cast<char>(t[at] == 'a' ? 'b' : 'a');
+            }
             d.sign(s.compare(t));
             d.sign(s.compare(buf));
             d.add(s == t);
@@ -600,7 +609,20 @@ constexpr auto script_string_view(u64 seed) -> Dig
     char ndl[8]{};
     for (int k = 0; k < 10; ++k) {
         int const hn = rand_text(r, hay, 12);
-        int const nn = rand_text(r, ndl, r.coin() ? 2 : 5);
+        int nn       = rand_text(r, ndl, r.coin() ? 2 : 5);
+        if ((k & 1) != 0) {
+            // a small alphabet with embedded NULs: long common prefixes, a terminator in the middle of the data
+            for (int i = 0; i < hn; ++i) { hay[i] = "a\0b"[r.below(3)]; }
+        }
+        if (r.below(3) != 0 && hn > 0) {
+            // the needle is a slice of the haystack, in half of the cases with its last character changed: equal up to
+            // the last position (comparisons that stop early, or at a NUL, are seen)
+            int const from = r.below(hn);
+            nn             = 1 + r.below(hn - from < 7 ? hn - from : 7);
+            for (int i = 0; i < nn; ++i) { ndl[i] = hay[from + i]; }
+            if (r.coin()) { ndl[nn - 1] = static_cast<char>(ndl[nn - 1] == 'a' ? 'b' : 'a'); }
+            ndl[nn] = 0;
+        }
         etl::string_view h{hay, static_cast<etl::size_t>(hn)};
         etl::string_view const n{ndl, static_cast<etl::size_t>(nn)};
         etl::size_t const ps[] = {0, static_cast<etl::size_t>(r.below(hn + 2)), static_cast<etl::size_t>(hn), etl::string_view::npos};
@@ -1558,6 +1580,41 @@ constexpr auto script_chrono_duration(u64 seed) -> Dig
         d.add(ch::floor<ch::days>(tq).time_since_epoch().count());
         d.add(ch::ceil<ch::hours>(tq).time_since_epoch().count());
         d.add(ch::round<ch::minutes>(tq).time_since_epoch().count());
+        // large tick counts (beyond 2^53: an intermediate floating-point value would round), kept below the overflow
+        // limits of the conversions
+        auto const braw = r.edge64() >> 2U; // 62 bits: round/ceil add one unit of the coarser duration
+        auto const big  = static_cast<i64>(braw) * (r.coin() ? 1 : -1);
+        ch::nanoseconds const nsb{big};
+        d.add(ch::duration_cast<ch::microseconds>(nsb).count());
+        d.add(ch::duration_cast<ch::milliseconds>(nsb).count());
+        d.add(ch::duration_cast<ch::seconds>(nsb).count());
+        d.add(ch::duration_cast<ch::minutes>(nsb).count());
+        d.add(ch::duration_cast<ch::hours>(nsb).count());
+        d.add(ch::duration_cast<ch::days>(nsb).count());
+        d.add(ch::floor<ch::seconds>(nsb).count());
+        d.add(ch::ceil<ch::milliseconds>(nsb).count());
+        d.add(ch::round<ch::microseconds>(nsb).count());
+        d.add(ch::floor<ch::days>(nsb).count());
+        ch::milliseconds const msb{big / 1048576 * 1000 + r.range(-1, 1)};
+        d.add(ch::duration_cast<ch::seconds>(msb).count());
+        d.add(ch::floor<ch::seconds>(msb).count());
+        d.add(ch::ceil<ch::seconds>(msb).count());
+        d.add(ch::round<ch::seconds>(msb).count());
+        d.add(ch::duration_cast<ch::microseconds>(msb).count());
+        ch::seconds const sb{big >> 30U};
+        d.add(ch::duration_cast<ch::milliseconds>(sb).count());
+        d.add(ch::duration_cast<ch::microseconds>(sb).count());
+        d.add(ch::duration_cast<ch::nanoseconds>(sb).count());
+        d.add(ch::duration_cast<ch::hours>(sb).count());
+        d.add(sb < nsb);
+        d.add(sb == ch::duration_cast<ch::seconds>(nsb));
+        d.add((nsb / 2 + ch::duration_cast<ch::nanoseconds>(sb) / 2).count());
+        d.add((nsb % ch::nanoseconds{1000000007}).count());
+        d.add(nsb / ch::nanoseconds{977});
+        ch::days const db{r.range(-106000, 106000)};
+        d.add(ch::duration_cast<ch::nanoseconds>(db).count());
+        d.add(ch::duration_cast<ch::seconds>(db).count());
+        d.add(ch::sys_days{db}.time_since_epoch().count());
         using namespace etl::literals;
         d.add((5_min + 3_s).count());
         d.add((2_h - 30_min).count());
